@@ -68,6 +68,8 @@ pub fn exec(case: &Value) -> Vec<Value> {
     let strat_s = get_str(case, "strategy");
     let strategy = match strat_s { "interleaved" => GenerationStrategy::Interleaved, "weighted" => GenerationStrategy::Weighted, _ => GenerationStrategy::Sequential };
     let seed = case.get("seed").and_then(|x| x.as_u64()).unwrap_or(0);
+    // seed = -1: the loader is built without a seed (the default); its stream is a fixed one all the same
+    let no_seed = case.get("seed").and_then(|x| x.as_i64()).map(|v| v < 0).unwrap_or(false);
     let epoch = get_u(case, "epoch");
     let pkind = get_str(case, "pipeline");
     let dir = std::env::temp_dir().join(format!("tuverif-loader-{}-{:?}", std::process::id(), std::thread::current().id()));
@@ -115,7 +117,7 @@ pub fn exec(case: &Value) -> Vec<Value> {
             let r = guard(|| {
                 train_loader(files.clone(), pipeline(pkind, &chars, &missp), strategy, threads, get_u(run, "buffer"),
                     get_u(run, "batch_limit"), if get_str(run, "ltype") == "padded" { BatchLimitType::PaddedItemSize } else { BatchLimitType::BatchSize },
-                    512, shuffle, get_u(run, "prefetch"), get_bool(run, "sort"), Some(seed), get_u(run, "skip"), limit,
+                    512, shuffle, get_u(run, "prefetch"), get_bool(run, "sort"), if no_seed { None } else { Some(seed) }, get_u(run, "skip"), limit,
                     if world > 1 || get_bool(run, "distributed") { Some((rank, world)) } else { None }, epoch, get_u(run, "ff"), usize::MAX)
             });
             quiet_panics(); // Pipe::new installs a process-exiting panic hook
@@ -192,7 +194,10 @@ pub fn gen(seed: u64, n: usize) -> Vec<Value> {
                 "prefetch": rng.random_range(0..=3), "batch_limit": bl, "ltype": if rng.random_bool(0.5) { "count" } else { "padded" }});
             let runs = variants(&mut rng, &base, 2);
             let pipeline = ["none", "ws", "spell", "real", "mixed", "switch", "chain", "mask", "persource"][rng.random_range(0..9)];
-            json!({"lens": lens, "strategy": strategy, "seed": rng.random_range(0..1000u64), "epoch": rng.random_range(0..3), "pipeline": pipeline, "runs": runs})
+            // one group in seven is unseeded (then without shuffling, which requires a seed)
+            let unseeded = rng.random_bool(0.15) && runs.iter().all(|r| !get_bool(r, "shuffle"));
+            let seedv: i64 = if unseeded { -1 } else { rng.random_range(0..1000i64) };
+            json!({"lens": lens, "strategy": strategy, "seed": seedv, "epoch": rng.random_range(0..3), "pipeline": pipeline, "runs": runs})
         })
         .collect()
 }
